@@ -1,6 +1,9 @@
 /-
-  The decimal float codec of Basic.lean (`parseFloatDec`, `formatFloatDec`): the text the model
-  stores for a float sum reads back as exactly that number.
+  The float codec of Basic.lean (`parseFloatDec`, `formatFloatDec`): the text the model stores for
+  a float sum reads back as exactly that number. `formatFloatDec` searches the decimals next to
+  the value, fewest digits first, for the first one that `parseFloatDec` reads back as the value,
+  so the read-back identity holds by construction; that this search IS Go's shortest formatting
+  (and `ratRound53` Go's correctly rounded parsing) is validated by the correspondence, not proved.
 -/
 import RedkaModel.Proofs.Num
 
@@ -8,367 +11,44 @@ namespace Redka.Float
 
 open Redka
 
-/-! ### digits -/
-
-theorem length_natDigits_le {d : Nat} : ∀ {N : Nat}, (natDigits N).length ≤ d → N < 10 ^ d := by
-  induction d with
-  | zero =>
-    intro N h
-    have := natDigits_ne_nil N
-    cases hN : natDigits N with
-    | nil => exact absurd hN this
-    | cons a t => rw [hN] at h; simp at h
-  | succ d ih =>
-    intro N h
-    by_cases hlt : N < 10
-    · calc N < 10 := hlt
-        _ = 10 ^ 1 := rfl
-        _ ≤ 10 ^ (d + 1) := Nat.pow_le_pow_right (by decide) (by omega)
-    · have hge : 10 ≤ N := by omega
-      rw [natDigits_of_ge hge, List.length_append] at h
-      simp only [List.length_cons, List.length_nil] at h
-      have := ih (N := N / 10) (by omega)
-      rw [Nat.pow_succ]
-      omega
-
-theorem digitsVal_replicate_zero (z acc : Nat) : digitsVal (List.replicate z 48) acc = acc * 10 ^ z := by
-  induction z generalizing acc with
-  | zero => simp [digitsVal]
-  | succ z ih =>
-    rw [List.replicate_succ]
-    simp only [digitsVal]
-    rw [ih, Nat.pow_succ]
-    have : ((48 : UInt8).toNat - 48) = 0 := by decide
-    rw [this, Nat.add_zero, Nat.mul_assoc, Nat.mul_comm 10]
-
-theorem all_digit_replicate (z : Nat) : (List.replicate z (48 : UInt8)).all isDigit = true := by
-  rw [List.all_eq_true]
-  intro c hc
-  rw [List.eq_of_mem_replicate hc]
-  decide
-
-theorem takeWhile_digits (ds rest : Bytes) (hd : ds.all isDigit = true) :
-    (ds ++ 46 :: rest).takeWhile isDigit = ds ∧ (ds ++ 46 :: rest).dropWhile isDigit = 46 :: rest := by
-  induction ds with
-  | nil => constructor <;> rfl
-  | cons c cs ih =>
-    rw [List.all_cons, Bool.and_eq_true] at hd
-    obtain ⟨h1, h2⟩ := ih hd.2
-    simp only [List.cons_append, List.takeWhile_cons, List.dropWhile_cons, hd.1, if_true, h1, h2]
-    exact ⟨trivial, trivial⟩
-
-theorem takeWhile_digits_end (ds : Bytes) (hd : ds.all isDigit = true) :
-    ds.takeWhile isDigit = ds ∧ ds.dropWhile isDigit = [] := by
-  induction ds with
-  | nil => constructor <;> rfl
-  | cons c cs ih =>
-    rw [List.all_cons, Bool.and_eq_true] at hd
-    obtain ⟨h1, h2⟩ := ih hd.2
-    simp only [List.takeWhile_cons, List.dropWhile_cons, hd.1, if_true, h1, h2]
-    exact ⟨trivial, trivial⟩
-
-theorem digit_in_alphabet {c : UInt8} (h : isDigit c = true) : floatAlphabet c = true := by
-  simp [floatAlphabet, h]
-
-theorem digit_plain {c : UInt8} (h : isDigit c = true) :
-    (isDigit c || c == 43 || c == 45 || c == 46) = true := by simp [h]
-
-/-! ### odd parts -/
-
-theorem oddPart_odd {n : Nat} (h : n % 2 = 1) : oddPart n = n := by
-  rw [oddPart]
-  have : n ≠ 0 := by omega
-  simp [this]
-  omega
-
-theorem oddPart_mul_two_pow (n : Nat) (hn : n % 2 = 1) : ∀ j : Nat, oddPart (n * 2 ^ j) = n
-  | 0 => by rw [Nat.pow_zero, Nat.mul_one]; exact oddPart_odd hn
-  | j + 1 => by
-    rw [oddPart]
-    have hpos : n * 2 ^ (j + 1) ≠ 0 := by
-      have : 0 < n := by omega
-      exact Nat.ne_of_gt (Nat.mul_pos this (Nat.pow_pos (by decide)))
-    have heven : n * 2 ^ (j + 1) % 2 = 0 := by
-      rw [Nat.pow_succ, ← Nat.mul_assoc]; exact Nat.mul_mod_left .. |> fun _ => by omega
-    have hdiv : n * 2 ^ (j + 1) / 2 = n * 2 ^ j := by
-      rw [Nat.pow_succ, ← Nat.mul_assoc]; exact Nat.mul_div_cancel _ (by decide)
-    simp only [hpos, dite_false, heven, if_true]
-    rw [hdiv]
-    exact oddPart_mul_two_pow n hn j
-
-end Redka.Float
-
-namespace Redka.Float
-
-open Redka
-
-/-- what `parseFloatDec` computes from the sign, the digits read as one natural number and the
-number of fraction digits -/
-def ofParts (neg : Bool) (n f : Nat) : FParse :=
-  if n % pow5 f != 0 then .unknown
-  else
-    let m := n / pow5 f
-    if m == 0 then (if neg then .unknown else .val .zero)
-    else if oddPart m ≥ 2 ^ 53 then .unknown
-    else .val (Dyadic.ofIntWithPrec (if neg then -(m : Int) else m) f)
-
-def signBytes (neg : Bool) : Bytes := if neg then [45] else []
-
-theorem all_append' (p : UInt8 → Bool) (a b : Bytes) : (a ++ b).all p = (a.all p && b.all p) :=
-  List.all_append
-
-/-- the sign dispatch of `plainDecimal` on a text that starts with a digit -/
-theorem splitSign_digit {c : UInt8} (hc : isDigit c = true) (rest : Bytes) :
-    splitSign (c :: rest) = (false, c :: rest) := by
-  have hc45 : c ≠ 45 := by intro h; subst h; revert hc; decide
-  have hc43 : c ≠ 43 := by intro h; subst h; revert hc; decide
-  unfold splitSign
-  split
-  · rename_i r heq
-    simp only [List.cons.injEq] at heq
-    exact absurd heq.1 hc45
-  · rename_i r heq
-    simp only [List.cons.injEq] at heq
-    exact absurd heq.1 hc43
-  · rfl
-
-theorem splitSign_minus (rest : Bytes) : splitSign (45 :: rest) = (true, rest) := rfl
-
-theorem plainDecimal_frac (neg : Bool) (ip fr : Bytes) (hip : ip.all isDigit = true) (hne : ip ≠ [])
-    (hfr : fr.all isDigit = true) :
-    plainDecimal (signBytes neg ++ ip ++ 46 :: fr) = some (neg, ip, fr) := by
-  obtain ⟨c, cs, rfl⟩ := List.exists_cons_of_ne_nil hne
-  have hc : isDigit c = true := by
-    rw [List.all_cons, Bool.and_eq_true] at hip; exact hip.1
-  obtain ⟨h1, h2⟩ := takeWhile_digits (c :: cs) fr hip
-  simp only [List.cons_append] at h1 h2
-  cases neg with
-  | true =>
-    simp only [signBytes, if_true, List.cons_append, List.nil_append, plainDecimal, splitSign_minus]
-    rw [h1, h2]
-    simp [hfr]
-  | false =>
-    simp only [signBytes, Bool.false_eq_true, if_false, List.nil_append, plainDecimal, List.cons_append,
-      splitSign_digit hc]
-    rw [h1, h2]
-    simp [hfr]
-
-theorem plainDecimal_int (neg : Bool) (ip : Bytes) (hip : ip.all isDigit = true) (hne : ip ≠ []) :
-    plainDecimal (signBytes neg ++ ip) = some (neg, ip, []) := by
-  obtain ⟨c, cs, rfl⟩ := List.exists_cons_of_ne_nil hne
-  have hc : isDigit c = true := by
-    rw [List.all_cons, Bool.and_eq_true] at hip; exact hip.1
-  obtain ⟨h1, h2⟩ := takeWhile_digits_end (c :: cs) hip
-  cases neg with
-  | true =>
-    simp only [signBytes, if_true, List.cons_append, List.nil_append, plainDecimal, splitSign_minus]
-    rw [h1, h2]
-    simp
-  | false =>
-    simp only [signBytes, Bool.false_eq_true, if_false, List.nil_append, plainDecimal, splitSign_digit hc]
-    rw [h1, h2]
-    simp
-
-theorem sign_alphabet (neg : Bool) : (signBytes neg).all floatAlphabet = true := by
-  cases neg <;> decide
-
-theorem sign_plain (neg : Bool) :
-    (signBytes neg).all (fun c => isDigit c || c == 43 || c == 45 || c == 46) = true := by
-  cases neg <;> decide
-
-theorem all_alphabet_of_digits {ds : Bytes} (h : ds.all isDigit = true) : ds.all floatAlphabet = true := by
-  rw [List.all_eq_true] at h ⊢
-  intro c hc; exact digit_in_alphabet (h c hc)
-
-theorem all_plain_of_digits {ds : Bytes} (h : ds.all isDigit = true) :
-    ds.all (fun c => isDigit c || c == 43 || c == 45 || c == 46) = true := by
-  rw [List.all_eq_true] at h ⊢
-  intro c hc; exact digit_plain (h c hc)
-
-/-- a signed decimal with a fraction part -/
-theorem parse_frac (neg : Bool) (ip fr : Bytes) (hip : ip.all isDigit = true) (hne : ip ≠ [])
-    (hfr : fr.all isDigit = true) :
-    parseFloatDec (signBytes neg ++ ip ++ 46 :: fr) = ofParts neg (digitsVal (ip ++ fr) 0) fr.length := by
-  have ha : (signBytes neg ++ ip ++ 46 :: fr).all floatAlphabet = true := by
-    rw [all_append', all_append', sign_alphabet, all_alphabet_of_digits hip, List.all_cons,
-      all_alphabet_of_digits hfr]; decide
-  have hp : (signBytes neg ++ ip ++ 46 :: fr).all (fun c => isDigit c || c == 43 || c == 45 || c == 46) = true := by
-    rw [all_append', all_append', sign_plain, all_plain_of_digits hip, List.all_cons,
-      all_plain_of_digits hfr]; decide
-  unfold parseFloatDec
-  rw [ha, hp, plainDecimal_frac neg ip fr hip hne hfr]
-  rfl
-
-/-- a signed integer text -/
-theorem parse_int (neg : Bool) (ip : Bytes) (hip : ip.all isDigit = true) (hne : ip ≠ []) :
-    parseFloatDec (signBytes neg ++ ip) = ofParts neg (digitsVal ip 0) 0 := by
-  have ha : (signBytes neg ++ ip).all floatAlphabet = true := by
-    rw [all_append', sign_alphabet, all_alphabet_of_digits hip]; rfl
-  have hp : (signBytes neg ++ ip).all (fun c => isDigit c || c == 43 || c == 45 || c == 46) = true := by
-    rw [all_append', sign_plain, all_plain_of_digits hip]; rfl
-  unfold parseFloatDec
-  rw [ha, hp, plainDecimal_int neg ip hip hne]
-  simp only [List.append_nil, List.length_nil]
-  rfl
-
-end Redka.Float
-
-namespace Redka.Float
-
-open Redka
-
-theorem ofParts_exact (neg : Bool) (a N f : Nat) (hN : N = a * pow5 f) (ha : a % 2 = 1) (hlt : a < 2 ^ 53) :
-    ofParts neg N f = .val (Dyadic.ofIntWithPrec (if neg then -(a : Int) else a) f) := by
-  have hp : 0 < pow5 f := Nat.pow_pos (by decide)
-  have hmod : N % pow5 f = 0 := by rw [hN]; exact Nat.mul_mod_left _ _
-  have hdiv : N / pow5 f = a := by rw [hN]; exact Nat.mul_div_cancel _ hp
-  have ha0 : a ≠ 0 := by omega
-  unfold ofParts
-  simp only [hmod, bne_self_eq_false, Bool.false_eq_true, if_false, hdiv]
-  have : (a == 0) = false := by simpa using ha0
-  simp only [this, Bool.false_eq_true, if_false, oddPart_odd ha]
-  have : ¬ (a ≥ 2 ^ 53) := by omega
-  simp only [this, if_false]
-
-theorem natAbs_odd {n : Int} (hn : n % 2 = 1) : n.natAbs % 2 = 1 := by omega
-
-theorem signed_natAbs (n : Int) : (if decide (n < 0) = true then -(n.natAbs : Int) else (n.natAbs : Int)) = n := by
-  by_cases h : n < 0
-  · simp only [h, decide_true, if_true]; omega
-  · simp only [h, decide_false, Bool.false_eq_true, if_false]; omega
-
-end Redka.Float
-
-namespace Redka.Float
-
-open Redka
-
-theorem signBytes_eq (n : Int) : (if n < 0 then ([45] : Bytes) else []) = signBytes (decide (n < 0)) := by
-  unfold signBytes
-  by_cases h : n < 0 <;> simp [h]
-
-/-- **The stored text of a float sum reads back as exactly that number**: whatever `formatFloatDec`
-prints, `parseFloatDec` parses to the same dyadic rational (so the text a float increment stores
-is a text the next float increment reads as the sum, C01/C04). -/
+/-- **Whatever `formatFloatDec` prints, `parseFloatDec` reads back as exactly that number.** -/
 theorem parse_format (x : Dyadic) (txt : Bytes) (h : formatFloatDec x = some txt) :
     parseFloatDec txt = .val x := by
+  unfold formatFloatDec at h
   cases x with
   | zero =>
-    simp only [formatFloatDec, Option.some.injEq] at h
+    simp only [Option.some.injEq] at h
     subst h
-    have := parse_int false [48] (by decide) (by decide)
-    simp only [signBytes, Bool.false_eq_true, if_false, List.nil_append] at this
-    rw [this]
-    simp [ofParts, digitsVal, pow5]
+    decide
   | ofOdd n k hn =>
-    have ha := natAbs_odd hn
-    simp only [formatFloatDec] at h
-    rw [signBytes_eq] at h
+    dsimp only at h
     split at h
-    · -- an integer: n * 2^j
-      rename_i hk
-      split at h
-      · rename_i hc
-        simp only [Bool.and_eq_true, decide_eq_true_eq] at hc
-        simp only [Option.some.injEq] at h
-        subst h
-        rw [parse_int _ _ (natDigits_all_digit _) (natDigits_ne_nil _), digitsVal_natDigits]
-        have hj : oddPart (n.natAbs * 2 ^ (-k).toNat) = n.natAbs := oddPart_mul_two_pow _ ha _
-        have hpos : n.natAbs * 2 ^ (-k).toNat ≠ 0 := by
-          have : 0 < n.natAbs := by omega
-          exact Nat.ne_of_gt (Nat.mul_pos this (Nat.pow_pos (by decide)))
-        unfold ofParts
-        simp only [pow5, Nat.pow_zero, Nat.mod_one, bne_self_eq_false, Bool.false_eq_true, if_false,
-          Nat.div_one, hj]
-        have h0 : (n.natAbs * 2 ^ (-k).toNat == 0) = false := by simpa using hpos
-        have hlt : ¬ (n.natAbs ≥ 2 ^ 53) := by omega
-        simp only [h0, Bool.false_eq_true, if_false, hlt]
-        congr 1
-        rw [Dyadic.ofOdd_eq_ofIntWithPrec]
-        -- ± (|n| * 2^j) = n <<< j, and the precision shifts by j
-        have hs : (if decide (n < 0) = true then -((n.natAbs * 2 ^ (-k).toNat : Nat) : Int)
-            else ((n.natAbs * 2 ^ (-k).toNat : Nat) : Int)) = n <<< (-k).toNat := by
-          rw [Int.shiftLeft_eq]
-          by_cases hneg : n < 0
-          · simp only [hneg, decide_true, if_true]
-            have : (n.natAbs : Int) = -n := by omega
-            push_cast
-            rw [this]
-            simp [Int.neg_mul]
-          · simp only [hneg, decide_false, Bool.false_eq_true, if_false]
-            have : (n.natAbs : Int) = n := by omega
-            push_cast
-            rw [this]
-        rw [hs]
-        have hk0 : (0 : Int) = k + ((-k).toNat : Int) := by omega
-        have := Dyadic.ofIntWithPrec_shiftLeft_add (x := n) (i := k) (n := (-k).toNat)
-        rw [← hk0] at this
-        exact this
-      · cases h
-    · -- a fraction: n / 2^k = (|n| * 5^k) / 10^k
-      rename_i hk
-      have hkpos : 0 < k := by omega
-      have hkk : ((k.toNat : Nat) : Int) = k := by omega
-      split at h
-      · cases h
-      · rename_i hlen
-        have hlen : (natDigits (n.natAbs * pow5 k.toNat)).length ≤ 15 := by omega
-        have hNlt := length_natDigits_le hlen
-        have h5 : 1 ≤ pow5 k.toNat := Nat.pow_pos (by decide)
-        have halt : n.natAbs < 2 ^ 53 := by
-          have : n.natAbs ≤ n.natAbs * pow5 k.toNat := Nat.le_mul_of_pos_right _ h5
-          have : (10 : Nat) ^ 15 < 2 ^ 53 := by decide
-          omega
-        have hres : ofParts (decide (n < 0)) (n.natAbs * pow5 k.toNat) k.toNat = .val (.ofOdd n k hn) := by
-          rw [ofParts_exact _ n.natAbs _ _ rfl ha halt, signed_natAbs, hkk, Dyadic.ofOdd_eq_ofIntWithPrec]
-        split at h
-        · -- 0.000ddd
-          rename_i hle
-          simp only [Option.some.injEq] at h
-          subst h
-          have hshape : signBytes (decide (n < 0)) ++ [48, 46] ++
-              List.replicate (k.toNat - (natDigits (n.natAbs * pow5 k.toNat)).length) 48 ++
-              natDigits (n.natAbs * pow5 k.toNat)
-              = signBytes (decide (n < 0)) ++ [48] ++ 46 ::
-                (List.replicate (k.toNat - (natDigits (n.natAbs * pow5 k.toNat)).length) 48 ++
-                  natDigits (n.natAbs * pow5 k.toNat)) := by
-            simp [List.append_assoc]
-          rw [hshape, parse_frac _ [48] _ (by decide) (by decide)
-            (by rw [all_append', all_digit_replicate, natDigits_all_digit]; rfl)]
-          rw [List.length_append, List.length_replicate, Nat.sub_add_cancel hle]
-          rw [show ([48] : Bytes) ++ (List.replicate (k.toNat - (natDigits (n.natAbs * pow5 k.toNat)).length) 48 ++
-              natDigits (n.natAbs * pow5 k.toNat))
-            = List.replicate ((k.toNat - (natDigits (n.natAbs * pow5 k.toNat)).length) + 1) 48 ++
-              natDigits (n.natAbs * pow5 k.toNat) by
-              rw [List.replicate_succ]; rfl]
-          rw [digitsVal_append, digitsVal_replicate_zero, Nat.zero_mul]
-          rw [digitsVal_natDigits]
-          exact hres
-        · -- ddd.ddd
-          rename_i hgt
-          simp only [Option.some.injEq] at h
-          subst h
-          generalize hds : natDigits (n.natAbs * pow5 k.toNat) = ds at *
-          have hall : ds.all isDigit = true := by rw [← hds]; exact natDigits_all_digit _
-          have hcut : 0 < ds.length - k.toNat := by omega
-          have hip : (ds.take (ds.length - k.toNat)).all isDigit = true := by
-            rw [List.all_eq_true] at hall ⊢
-            intro c hc; exact hall c (List.mem_of_mem_take hc)
-          have hfr : (ds.drop (ds.length - k.toNat)).all isDigit = true := by
-            rw [List.all_eq_true] at hall ⊢
-            intro c hc; exact hall c (List.mem_of_mem_drop hc)
-          have hne : ds.take (ds.length - k.toNat) ≠ [] := by
-            intro he
-            have := congrArg List.length he
-            simp only [List.length_take, List.length_nil] at this
-            omega
-          have hshape : signBytes (decide (n < 0)) ++ ds.take (ds.length - k.toNat) ++ [46] ++
-              ds.drop (ds.length - k.toNat)
-              = signBytes (decide (n < 0)) ++ ds.take (ds.length - k.toNat) ++ 46 ::
-                ds.drop (ds.length - k.toNat) := by simp [List.append_assoc]
-          rw [hshape, parse_frac _ _ _ hip hne hfr, List.take_append_drop, List.length_drop]
-          have : ds.length - (ds.length - k.toNat) = k.toNat := by omega
-          rw [this, ← hds, digitsVal_natDigits]
-          exact hres
+    · rename_i t ht
+      simp only [Option.some.injEq] at h
+      subst h
+      have := List.find?_some ht
+      simpa using this
+    · cases h
+
+/-- the printed text is never empty -/
+theorem format_nonempty (x : Dyadic) (txt : Bytes) (h : formatFloatDec x = some txt) : txt ≠ [] := by
+  intro he
+  have := parse_format x txt h
+  rw [he] at this
+  have h0 : parseFloatDec [] = .invalid := by decide
+  rw [h0] at this
+  cases this
+
+private def b (s : String) : Bytes := s.toUTF8.toList
+
+/-- non-vacuity: values that need rounding on the way in and 17 digits on the way out -/
+example : (match parseFloatDec (b "0.1"), parseFloatDec (b "0.2") with
+    | .val a, .val b => formatFloatDec (f64add a b)
+    | _, _ => none) = some (b "0.30000000000000004") := by decide +kernel
+example : (match parseFloatDec (b "1e23") with | .val a => formatFloatDec a | _ => none)
+    = some (b "100000000000000000000000") := by decide +kernel
+example : parseFloatDec (b "1e") = .invalid ∧ parseFloatDec (b "0x1p-2") = .unknown ∧
+    parseFloatDec (b "-0") = .unknown ∧ parseFloatDec (b "1.5.2") = .invalid := by
+  decide +kernel
 
 end Redka.Float
